@@ -174,7 +174,27 @@ def full_string_appended_in_oos_try_body(f):
     return False
 
 
-PREDICATES = {"full-string-appended-in-oos-try-body": full_string_appended_in_oos_try_body}
+def yield_in_end_clause_inside_loop(f):
+    """
+    The recorded C04 end()-livelock: an `end -> { ... yield ... }` clause (the yield at the clause's top level or inside
+    an action-only if) of a case that sits inside a loop, and the non-returning call is end() yielding again and again.
+    """
+    if not re.search(r"end-yields=", f.get("detail", "")):
+        return False
+    src = f.get("ctx", {}).get("source", "")
+    for lp in re.finditer(r"\bloop\b", src):
+        body, _ = _block_after(src, lp.end())
+        if body is None:
+            continue
+        for m in re.finditer(r"\bend\s*->", body):
+            clause, _ = _block_after(body, m.end())
+            if clause is not None and re.search(r"\byield\b", clause):
+                return True
+    return False
+
+
+PREDICATES = {"full-string-appended-in-oos-try-body": full_string_appended_in_oos_try_body,
+              "yield-in-end-clause-inside-loop": yield_in_end_clause_inside_loop}
 
 
 def known_match(entry, prop, f):
